@@ -302,6 +302,16 @@ pub fn check(prop: &str, tier: &str) -> i32 {
 
     // verify every replay file in a fresh process before believing it
     let mut reported = 0;
+    violations.sort_by_key(|v| {
+        // deterministic order: by run index (last number in the file name)
+        v.trim_end_matches(".json")
+            .rsplit('-')
+            .next()
+            .and_then(|x| x.parse::<u64>().ok())
+            .unwrap_or(u64::MAX)
+    });
+    let total_violations = violations.len();
+    violations.truncate(5);
     for v in &violations {
         let name = std::path::Path::new(v)
             .file_name()
@@ -365,7 +375,7 @@ pub fn check(prop: &str, tier: &str) -> i32 {
         &st,
         distinct,
         wall,
-        violations.len() + confirmed_aborts.len() * abort_in_scope as usize,
+        total_violations + confirmed_aborts.len() * abort_in_scope as usize,
         &aborted_runs,
         &harness_errors,
         &known_files,
